@@ -464,7 +464,7 @@ Section WithMarks.
   Proof.
     intros pe px fuel r l Hrun. unfold run_visit in Hrun.
     destruct (visit out pe px fuel r (m_new, [])) as [s|] eqn:Ev; [|discriminate].
-    inversion Hrun; subst l.
+    inversion Hrun; subst l. rewrite <- rev_alt.
     destruct (visit_sound _ _ _ _ _ _ _ _ Ev agrees_new) as (evs & V' & Hd & _ & Hacc).
     exists evs, V'. split; [exact Hd|].
     rewrite Hacc, app_nil_r, rev_involutive. reflexivity.
@@ -479,7 +479,7 @@ Section WithMarks.
     destruct (visit_fuel n Hwf fuel pe px r m_new [] Hr (Hnew _)) as (s & Hs & _).
     { pose proof (unm_le_length m_new (nodes_upto n)) as H. rewrite nodes_upto_length in H. lia. }
     assert (Hrun : run_visit out pe px fuel r = Some (rev (snd s))).
-    { unfold run_visit. rewrite Hs. reflexivity. }
+    { unfold run_visit. rewrite Hs, <- rev_alt. reflexivity. }
     destruct (run_visit_sound _ _ _ _ _ Hrun) as (evs & V' & Hd & El).
     exists evs, V'. split; [exact Hd|]. rewrite Hrun, El. reflexivity.
   Qed.
